@@ -137,7 +137,7 @@ def start_user(kind, path):
 
 def finish_user(p):
     try:
-        out, err = p.communicate(input=b"g", timeout=20)
+        out, err = p.communicate(input=b"g", timeout=90)
     except subprocess.TimeoutExpired:
         p.kill()
         out, err = p.communicate()
